@@ -108,7 +108,7 @@ def kernel(rel, fired, l2=True):
 # --------------------------------------------------------------------------------------------------------
 class Query:
     def __init__(self, name, ctext, defines=(), trig=False, timeout=30, function="", where="", group=None,
-                 extra_axioms="", want_model=()):
+                 extra_axioms="", want_model=(), zero_axiom=False):
         self.__dict__.update(locals())
         del self.__dict__['self']
 
@@ -145,7 +145,7 @@ def _aliases(forms):
 _SYM = r'\|[^|]+\|'
 
 
-def trig_axioms(forms):
+def trig_axioms(forms, zero_axiom=False):
     """Ackermannisation of sin/cos (DESIGN 4.2): every application (sin a)/(cos a) becomes a fresh real constant per
     argument class; the axiom instances over the classes that occur are added: s^2+c^2=1, a=0 => (s,c)=(0,1),
     double angle (definitional when a is syntactically 2*b, conditional otherwise), parity and congruence
@@ -199,7 +199,7 @@ def trig_axioms(forms):
         if k in defined:
             continue
         ax.append("(assert (= (+ (* |sin#%d| |sin#%d|) (* |cos#%d| |cos#%d|)) 1.0))" % (k, k, k, k))
-        if ZERO_AXIOM:
+        if zero_axiom:
             ax.append("(assert (=> (= %s 0.0) (and (= |sin#%d| 0.0) (= |cos#%d| 1.0))))" % (c, k, k))
     for i, ci in enumerate(classes):
         for j, cj in enumerate(classes):
@@ -263,7 +263,7 @@ def run_query(q, bdir, inc=()):
     r.divisors = len(sw.divisors)
     ax = []
     if q.trig:
-        forms, ax, r.n_trig = trig_axioms(forms)
+        forms, ax, r.n_trig = trig_axioms(forms, getattr(q, 'zero_axiom', False))
     if q.extra_axioms:
         ax.append(q.extra_axioms)
     body = "\n".join(forms)
@@ -387,3 +387,62 @@ def std_setup(report, pid):
     report.assume("S2,S3,S5 are the positive roots of 2,3,5; sin/cos are uninterpreted functions constrained only by the axiom instances of DESIGN 4.2")
     report.trust("CBMC 6.11 symbolic execution (--outfile), tools/fp2real.py theory swap, z3 4.8.12, cvc5 1.0")
     return bdir, [bdir, os.path.join(core.VERIF, "spec")]
+
+
+def run_symbolic(rep, pid, qs, bdir, inc, gens=None, lin=None, witness=None, replay_prog=None, workers=None):
+    """Run fully symbolic VCs.  A VC that is not discharged is localised with generator instantiations
+    (`gens(q)` -> sub-queries); when every instantiation holds and the linearity lemma `lin(q)` (an obligation id
+    recorded in this run) is discharged, the VC counts as discharged by composition (DESIGN 4.3).  Failing
+    VCs are replayed natively through `witness(q, failing_sub)`."""
+    import replaylib
+    results = core.pmap(lambda q: run_query(q, bdir, inc), qs, workers=workers or max(2, core.NCPU // 2))
+    by_id = {}
+    pending = []
+    for r in results:
+        if r.status == "discharged" or gens is None or gens(r.q) is None:
+            record(rep, r, pid)
+            by_id["%s.L2.%s" % (pid, r.q.name)] = r
+            if r.status == "failed":
+                pending.append((r, None))
+        else:
+            pending.append((r, gens(r.q)))
+    for r, sub in pending:
+        fail_sub = None
+        if sub is not None:
+            sres = core.pmap(lambda x: run_query(x, bdir, inc), sub)
+            bad = [x for x in sres if x.status == "failed"]
+            und = [x for x in sres if x.status == "undecided"]
+            if bad:
+                fail_sub = bad[0]
+                r.status = "failed"
+                r.detail = "instantiation %s violates the postcondition" % ", ".join(x.q.name for x in bad[:4])
+            elif und:
+                r.status = "undecided"
+                r.detail = (r.detail + "; %d instantiations undecided" % len(und)).strip("; ")
+            else:
+                lid = lin(r.q) if lin else None
+                lr = by_id.get(lid)
+                if r.status == "undecided" and lr is not None and lr.status == "discharged":
+                    r.status, r.detail = "discharged", "by %d generator instantiations + linearity lemma %s" % (len(sres), lid)
+                    for x in sres:
+                        record(rep, x, pid)
+                elif r.status == "failed":
+                    r.status = "undecided"
+                    r.detail = "symbolic VC sat but every instantiation holds"
+            record(rep, r, pid)
+        if r.status == "failed":
+            oid = "%s.L2.%s" % (pid, r.q.name)
+            data = dict(obligation=r.q.name, function=r.q.function, verifier="cbmc --outfile + fp2real + " + (r.backend or "z3/cvc5"),
+                        verifier_output=r.detail, model=(fail_sub.model if fail_sub else r.model))
+            ok = False
+            if witness:
+                data["witness"] = witness(r.q, fail_sub)
+                path = core.write_replay(pid, oid, data)
+                ok = replaylib.run_replay(pid, path, prog=replay_prog)
+            else:
+                path = core.write_replay(pid, oid, data)
+            rep.violation(oid, path, nofail=not ok)
+
+
+def defs_of(q):
+    return dict((x.split("=") + ["1"])[:2] for x in q.defines)
